@@ -1018,6 +1018,11 @@ impl Model {
                         self.lost = true;
                         return;
                     }
+                    if status_at_frame == St::Cd {
+                        s.hit("S11-connack-on-established-connection-not-processed");
+                        s.fail("C06", "S11-connack-on-established-connection-not-processed", format!("sp={}", sp), format!("a CONNACK (session present {}) arriving on an established connection was delivered and processed: {}", sp, evs_short(evs)));
+                        return;
+                    }
                     if status_at_frame != St::Cg {
                         // CONNACK without a CONNECT in progress: no property says what it means
                         self.unsynced = true;
